@@ -228,6 +228,8 @@ class TS:
 
     def _memread(self, midx, addr):
         m = self.nl.cells[midx]
+        if addr is None:                              # zero-width address (depth-1 memory): always row 0
+            addr = z3.BitVecVal(0, 1)
         if ('mem', midx) not in self.state:          # ROM: constant lookup tree over the real init contents
             return self._romread(m.init, addr, m.width)
         mem = self.state[('mem', midx)]
